@@ -36,6 +36,19 @@ def generate(rng: random.Random, tier: str):
                       'seed': rng.randrange(1 << 30)})
     for _ in range(40 if thorough else 10):
         cases.append({'kind': 'sepsum', 'seed': rng.randrange(1 << 30)})
+    # x smaller than the broadcast of (x, weight, target): the documented value reduces over the *broadcast* elements
+    for _ in range(300 if thorough else 60):
+        rank = rng.randint(1, 3)
+        shape = [rng.randint(2, 3) for _ in range(rank)]
+        dims = None if rng.random() < 0.3 else sorted(rng.sample(range(rank), rng.randint(1, rank)))
+        if dims is not None:
+            dims = [d if rng.random() < 0.5 else d - rank for d in dims]
+        full = rng.choice(['weight', 'target', 'both'])
+        cases.append({'kind': 'funx', 'cls': rng.choice([c for c in CLS if c != 'ZeroFunctional']), 'shape': shape, 'dim': dims, 'complex_x': rng.random() < 0.3, 'target_dtype': 'same',
+                      'weight': 'tensor' if full in ('weight', 'both') else rng.choice(['py', 'bcast']),
+                      'target': 'tensor' if full in ('target', 'both') else rng.choice(['none', 'py', 'bcast']),
+                      'divide_by_n': rng.random() < 0.7, 'keepdim': rng.random() < 0.5, 'sigma': 'py', 'scale': None,
+                      'x_shape': bcast_shape(rng, shape), 'seed': rng.randrange(1 << 30)})
     return cases
 
 
@@ -62,7 +75,7 @@ def build(case, rng):
     import mrpro.operators.functionals as F
 
     shape = case['shape']
-    x = rand_tensor(rng, shape, case['complex_x'])
+    x = rand_tensor(rng, case.get('x_shape', shape), case['complex_x'])
     wk = case['weight']
     if wk == 'py':
         w = rng.choice([1.0, 2.0, 0.5, 0.0, -1.5])
@@ -288,5 +301,39 @@ def run_sepsum(case, drv) -> Outcome:
     return Outcome(key=('sepsum', len(fs), case['seed'] % 13), viol=viol, branches=['sepsum'])
 
 
+def run_funx(case, drv) -> Outcome:
+    """forward value only, for an x that is broadcast against a larger weight / target"""
+    rng = random.Random(case['seed'])
+    st, built = call(lambda: build(case, rng))
+    if st != 'ok':
+        return Outcome(key=('funx-ctor', str(case)), corr=f'constructor raised {built} for {case}')
+    f, _fk, x, w, t, _sigma, red = built
+    cfgs = f'{case["cls"]} x-shape {case["x_shape"]} broadcast shape {case["shape"]} dim {case["dim"]} w:{case["weight"]} t:{case["target"]} div:{case["divide_by_n"]} keep:{case["keepdim"]}'
+    viol = corr = None
+    st, val = call(lambda: f(x)[0])
+    if st != 'ok':
+        return Outcome(key=('funx', cfgs), viol={'signature': f'{case["cls"]}:forward-raises', 'what': f'{cfgs}: forward raises {val}'}, branches=['funx:raises'])
+    want = spec_value(case, x, w, t, red)
+    if want is not None and not close(val, want):
+        viol = {'signature': f'{case["cls"]}:value', 'what': f'{cfgs}: forward value {val.flatten().tolist()[:4]} differs from the documented value '
+                f'{want.flatten().tolist()[:4]} (reduction / normalisation over the broadcast of x, weight and target)'}
+    if not case['complex_x'] and case['weight'] != 'complex':
+        from harness.core.conv import parse_scal
+
+        m = drv.call({'op': 'functional', 'cls': MODEL_CLS[case['cls']], 'weight': tj(w), 'target': tj(0.0 if t is None else t), 'dim': case['dim'],
+                      'divide_by_n': case['divide_by_n'], 'keepdim': case['keepdim'], 'x': tj(x), 'call': 'forward'})
+        if 'err' in m:
+            corr = f'{cfgs}: model forward raises {m["err"]}, implementation returns'
+        else:
+            mv = torch.tensor([float(parse_scal(s_)[0]) for s_ in m['data']], dtype=torch.float64).reshape(m['shape'])
+            if not close(val, mv):
+                corr = f'{cfgs}: forward impl {val.flatten().tolist()[:4]} model {mv.flatten().tolist()[:4]}'
+    return Outcome(key=('funx', cfgs, case['complex_x']), corr=corr, viol=viol,
+                   branches=[case['cls'], 'x-broadcast', f'div:{case["divide_by_n"]}', 'dim:none' if case['dim'] is None else f'dim:{len(case["dim"])}of{len(case["shape"])}'],
+                   sample=case)
+
+
 def run(case, drv) -> Outcome:
+    if case['kind'] == 'funx':
+        return run_funx(case, drv)
     return run_fun(case, drv) if case['kind'] == 'fun' else run_sepsum(case, drv)
